@@ -128,12 +128,16 @@ type c01Node struct {
 	crashes  int
 	panics   int
 	done     bool
-	seen     map[string]bool
+	seen     map[string]int64 // gossip de-duplication: -1 queued, otherwise the (virtual) time of the last delivery
 	zero     time.Duration // C05 virtual time of the last rezero
 	ensP     map[round]period
+	caughtUp map[round]period // finished the round through the ledger (roundInterruption), in that period
 	maxStep  step // largest Step seen after the synchrony point
+	maxStepNew step // ... in a period entered after the synchrony point
 	syncP    period
 	syncR    round
+	syncDone bool // already committed at the synchrony point
+	panicsAfter, nilAfter int
 }
 
 type c01Timed struct {
@@ -141,6 +145,7 @@ type c01Timed struct {
 	seq  int
 	node int
 	net  bool
+	catchup round // != 0: the ledger of this node obtained the block of that round from a peer (catchup service)
 	msg  c01Msg
 	ev   vsmEvent
 }
@@ -164,17 +169,20 @@ type c01Sim struct {
 	nilHit int
 	lastR  round
 	runIdx int
+	catchupDelay time.Duration
+	dlObs  []interface{} // C05: (period stepBefore napBefore entropy stepAfter napAfter deadlineAfter dynamicFilter) per deadline timeout
 }
 
 type c01Stats struct {
 	runs, submits, votes, enters, ensures, crashes, panics, synth, byzVotes, byzBundles, forksOver, forksUnder int
-	dropped, dups, timeouts, fasts, replays, committedRuns, maxPeriod, maxStep, traceMax, rollbackEnters   int
+	cancelled, dropped, dups, timeouts, fasts, replays, committedRuns, maxPeriod, maxStep, traceMax, rollbackEnters   int
+	enterKinds, voteKinds                                                                                   map[string]int
 	modes                                                                                                   map[string]int
 	panicClasses                                                                                            map[string]int
 }
 
 func c01NewStats() *c01Stats {
-	return &c01Stats{modes: map[string]int{}, panicClasses: map[string]int{}}
+	return &c01Stats{modes: map[string]int{}, panicClasses: map[string]int{}, enterKinds: map[string]int{}, voteKinds: map[string]int{}}
 }
 
 var c01Debug = os.Getenv("VERIF_C01_DEBUG") != ""
@@ -348,15 +356,43 @@ func (s *c01Sim) msgKey(m c01Msg) string {
 	return fmt.Sprintf("c%d.%d.%d.%d", s.valID(m.pv), vsmSnd(r.Sender), r.Period, r.Step)
 }
 
-// send: gossip de-duplication (a node is sent an identical message once); sendRaw bypasses it
+// send: gossip de-duplication as a rotating "recently seen" cache would do it: an identical message is not
+// queued twice, and not delivered again within a window after its delivery (60 scheduler steps / 5 s of
+// virtual time); a lost message can come again with a later relay; a restarted node has forgotten what it saw.
+// sendRaw bypasses it.
+func (s *c01Sim) stamp() int64 {
+	if s.sync {
+		return int64(s.now/time.Millisecond) + 1
+	}
+	return int64(s.step) + 1
+}
+
 func (s *c01Sim) send(from int, to int, m c01Msg) {
 	nd := s.nodes[to]
 	k := s.msgKey(m)
-	if nd.seen[k] {
-		return
+	if at, ok := nd.seen[k]; ok {
+		win := int64(60)
+		if s.sync {
+			win = 5000
+		}
+		if at < 0 || s.stamp()-at < win {
+			return
+		}
 	}
-	nd.seen[k] = true
+	nd.seen[k] = -1
 	s.sendRaw(to, m)
+}
+
+func (s *c01Sim) lost(to int, m c01Msg) {
+	nd := s.nodes[to]
+	if k := s.msgKey(m); nd.seen[k] == -1 {
+		delete(nd.seen, k)
+	}
+}
+
+func (s *c01Sim) deliver(to int, m c01Msg) {
+	s.nodes[to].seen[s.msgKey(m)] = s.stamp()
+	s.submit(to, s.presentEvent(m))
 }
 
 func (s *c01Sim) sendRaw(to int, m c01Msg) {
@@ -372,6 +408,7 @@ func (s *c01Sim) sendRaw(to int, m c01Msg) {
 		return
 	}
 	if len(nd.inbox) > 400 {
+		s.lost(to, m)
 		return // bounded buffers: oldest kept
 	}
 	nd.inbox = append(nd.inbox, m)
@@ -389,6 +426,29 @@ func (s *c01Sim) bcast(from int, m c01Msg) {
 	}
 	if m.kind == c01MBundle && len(s.bund) < 500 {
 		s.bund = append(s.bund, m)
+	}
+}
+
+func (s *c01Sim) cancelPending(i int, key string) {
+	canc := func(e *vsmEvent) {
+		if e.kind != key {
+			return
+		}
+		me := e.ev.(messageEvent)
+		if me.Cancelled {
+			return
+		}
+		me.Cancelled = true
+		e.ev = me
+		s.st.cancelled++
+	}
+	for k := range s.nodes[i].local {
+		canc(&s.nodes[i].local[k])
+	}
+	for k := range s.q {
+		if s.q[k].node == i && !s.q[k].net {
+			canc(&s.q[k].ev)
+		}
 	}
 }
 
@@ -447,6 +507,12 @@ func (s *c01Sim) submit(i int, e vsmEvent) {
 		nd.panics++
 		if pc == "nil_router" {
 			s.nilHit++
+			if s.sync {
+				nd.nilAfter++
+			}
+		}
+		if s.sync {
+			nd.panicsAfter++
 		} else if c01Debug {
 			fmt.Fprintf(os.Stderr, "c01: node %d panic %s: %s\n", nd.id, pc, pm)
 		}
@@ -549,6 +615,13 @@ func (s *c01Sim) enter(nd *c01Node, r round, target period) {
 	}
 	t.evs = append(t.evs, c01Ev{term: vT(vSym("e"), nd.id, uint64(target), k, val), node: nd.id, enter: true})
 	s.st.enters++
+	kind := map[uint64]string{0: "next", 1: "soft", 2: "cert", 9: "unknown"}[k]
+	if k == 0 && val == 0 {
+		kind = "next_bottom"
+	} else if k == 0 {
+		kind = "next_value"
+	}
+	s.st.enterKinds[kind]++
 }
 
 func (s *c01Sim) after(i int, r0 round, p0 period, acts []action, restored bool) {
@@ -575,6 +648,17 @@ func (s *c01Sim) after(i int, r0 round, p0 period, acts []action, restored bool)
 				}
 				s.recordVote(x.Round, nd.id, x.Period, x.Step, x.Proposal, true)
 				s.st.votes++
+				vk := map[step]string{soft: "soft", cert: "cert", late: "late", redo: "redo", down: "down"}[x.Step]
+				if vk == "" {
+					vk = "next_value"
+					if x.Proposal == bottom {
+						vk = "next_bottom"
+					}
+				}
+				if x.Period > 0 && (x.Step == soft || x.Step == cert) {
+					vk += "_later_period"
+				}
+				s.st.voteKinds[vk]++
 				v, rank := s.mkVote(nd.id, x.Round, x.Period, x.Step, x.Proposal)
 				s.pushLocal(i, s.c.voteEvent(true, v, rank, vsmMeta{hnil: true}, nil))
 			case assemble:
@@ -600,6 +684,15 @@ func (s *c01Sim) after(i int, r0 round, p0 period, acts []action, restored bool)
 				t.ensVal[id] = true
 				nd.ensP[r] = x.Certificate.Period
 				s.st.ensures++
+				if s.sync && s.catchupDelay > 0 {
+					// the block and its certificate are now in this node's ledger: peers that fall behind fetch it
+					for j, o := range s.nodes {
+						if j != i && !o.done {
+							s.seq++
+							s.q = append(s.q, c01Timed{at: s.now + s.catchupDelay, seq: s.seq, node: j, catchup: r})
+						}
+					}
+				}
 			}
 		case networkAction:
 			switch x.T {
@@ -624,9 +717,6 @@ func (s *c01Sim) after(i int, r0 round, p0 period, acts []action, restored bool)
 				}
 			}
 		case cryptoAction:
-			if !s.sync && s.rnd.Intn(100) < s.cfg.w["cryptoLoss"] {
-				continue // verification request cancelled / lost
-			}
 			m := vsmMeta{hnil: x.M.messageHandle == nil}
 			switch x.T {
 			case verifyVote:
@@ -637,7 +727,16 @@ func (s *c01Sim) after(i int, r0 round, p0 period, acts []action, restored bool)
 				if x.M.UnauthenticatedProposal.Round() != x.Round {
 					m.err = true // proposal.validate: proposed entry from wrong round
 				}
-				s.pushLocal(i, s.c.payloadEvent(true, x.M.UnauthenticatedProposal.value(), m))
+				// pendingRequestsContext.addProposal: a new proposal of the same (round, period | pinned) cancels
+				// the validation of the older one that is still in flight (it comes back as Cancelled)
+				key := fmt.Sprintf("payloadV:%d:%d:%v", x.Round, x.Period, x.Pinned)
+				if x.Pinned {
+					key = fmt.Sprintf("payloadV:%d:pinned", x.Round)
+				}
+				s.cancelPending(i, key)
+				ev := s.c.payloadEvent(true, x.M.UnauthenticatedProposal.value(), m)
+				ev.kind = key
+				s.pushLocal(i, ev)
 			case verifyBundle:
 				s.pushLocal(i, s.bundleEv(true, x.M.UnauthenticatedBundle, m))
 			}
@@ -650,6 +749,9 @@ func (s *c01Sim) after(i int, r0 round, p0 period, acts []action, restored bool)
 	}
 	if s.sync && pl.Step > nd.maxStep && pl.Step < late {
 		nd.maxStep = pl.Step
+	}
+	if s.sync && !nd.done && (pl.Round != nd.syncR || pl.Period != nd.syncP) && pl.Round == nd.syncR && pl.Step > nd.maxStepNew && pl.Step < late {
+		nd.maxStepNew = pl.Step
 	}
 	if uint64(pl.Step) > uint64(s.st.maxStep) && pl.Step < late {
 		s.st.maxStep = int(pl.Step)
@@ -695,10 +797,15 @@ func (s *c01Sim) crash(i int) {
 		}
 	}
 	nd.local = nil // crypto tasks in flight are lost
+	for k, v := range nd.seen {
+		if v >= 0 {
+			delete(nd.seen, k) // the restarted process has an empty de-duplication cache
+		}
+	}
 	if s.sync {
 		q := s.q[:0]
 		for _, e := range s.q {
-			if !(e.node == i && !e.net) {
+			if !(e.node == i && !e.net && e.catchup == 0) {
 				q = append(q, e)
 			}
 		}
@@ -1103,7 +1210,7 @@ func (s *c01Sim) deliverNet(i int) bool {
 			continue
 		}
 		nd.inbox = append(nd.inbox[:idx:idx], nd.inbox[idx+1:]...)
-		s.submit(i, s.presentEvent(m))
+		s.deliver(i, m)
 		return true
 	}
 	return false
@@ -1137,6 +1244,7 @@ func (s *c01Sim) stepOnce() {
 	case "drop":
 		if len(nd.inbox) > 0 {
 			idx := s.rnd.Intn(len(nd.inbox))
+			s.lost(i, nd.inbox[idx])
 			nd.inbox = append(nd.inbox[:idx:idx], nd.inbox[idx+1:]...)
 			s.st.dropped++
 		}
@@ -1236,8 +1344,14 @@ func (s *c01Sim) runSync(limit time.Duration, maxEvents int) {
 			if s.nodes[e.node].done {
 				continue
 			}
-			if e.net {
-				s.submit(e.node, s.presentEvent(e.msg))
+			if e.catchup != 0 {
+				nd := s.nodes[e.node]
+				if pl := nd.m.player(); pl.Round == e.catchup {
+					nd.caughtUp[e.catchup] = pl.Period
+					s.submit(e.node, s.c.roundInterruptionEvent(e.catchup+1))
+				}
+			} else if e.net {
+				s.deliver(e.node, e.msg)
 			} else {
 				s.submit(e.node, e.ev)
 			}
@@ -1255,7 +1369,14 @@ func (s *c01Sim) runSync(limit time.Duration, maxEvents int) {
 		} else {
 			s.st.timeouts++
 		}
-		s.submit(ti, s.c.timeoutEvent(tfast, s.rnd.U64(), false, nd.m.player().Round))
+		ent := s.rnd.U64()
+		pl := nd.m.player()
+		r0, p0, s0, n0, pan0 := pl.Round, pl.Period, pl.Step, pl.Napping, nd.panics
+		s.submit(ti, s.c.timeoutEvent(tfast, ent, false, r0))
+		pl = nd.m.player()
+		if !tfast && nd.panics == pan0 && !nd.done && pl.Round == r0 && pl.Period == p0 && len(s.dlObs) < 80 {
+			s.dlObs = append(s.dlObs, vL(uint64(p0), uint64(s0), n0, ent, uint64(pl.Step), pl.Napping, int64(pl.Deadline.Duration)))
+		}
 	}
 }
 
@@ -1266,6 +1387,7 @@ func (s *c01Sim) synchronise() {
 	s.now = time.Hour // virtual origin, large enough for zero = now - elapsed
 	for j, nd := range s.nodes {
 		if nd.done {
+			nd.syncDone = true
 			continue
 		}
 		pl := nd.m.player()
@@ -1287,6 +1409,7 @@ func (s *c01Sim) synchronise() {
 			s.pushLocal(j, e)
 		}
 		for _, m := range inbox {
+			s.lost(j, m)
 			if s.rnd.Intn(3) == 0 {
 				continue // lost during the asynchronous prefix
 			}
@@ -1305,7 +1428,7 @@ func c01NewSim(ver protocol.ConsensusVersion, rnd *vRand, cfg c01Cfg, st *c01Sta
 		s.ids = append(s.ids, id)
 	}
 	for i := 0; i < cfg.n; i++ {
-		nd := &c01Node{id: uint64(i + 1), m: vsmNewMachine(ver, cfg.r0), mark: map[round]int{}, ensP: map[round]period{}, seen: map[string]bool{}}
+		nd := &c01Node{id: uint64(i + 1), m: vsmNewMachine(ver, cfg.r0), mark: map[round]int{}, ensP: map[round]period{}, caughtUp: map[round]period{}, seen: map[string]int64{}}
 		s.nodes = append(s.nodes, nd)
 	}
 	s.trace(cfg.r0)
@@ -1434,22 +1557,24 @@ func (s *c01Sim) caseLines() []string {
 var c01Modes = map[string]map[string]int{
 	// "adv": per cent of scheduler steps taken by the adversary; the rest deliver pending work (a timeout when idle)
 	// benign-ish network: reordering, duplication, a little loss
-	"random": {"adv": 10, "drop": 10, "dup": 10, "timeout": 20, "fast": 3, "echo": 0, "byz": 30, "bprop": 8, "bbundle": 8, "replay": 5, "crash": 0, "cryptoLoss": 2},
+	"random": {"adv": 10, "drop": 10, "dup": 10, "timeout": 20, "fast": 3, "echo": 0, "byz": 30, "bprop": 8, "bbundle": 8, "replay": 5, "crash": 0},
 	// two-faced Byzantine senders amplify every group's own votes while the honest set is split
-	"split": {"adv": 22, "drop": 3, "dup": 5, "timeout": 10, "fast": 2, "echo": 55, "byz": 6, "bprop": 6, "bbundle": 10, "replay": 3, "crash": 0, "cryptoLoss": 1},
+	"split": {"adv": 22, "drop": 3, "dup": 5, "timeout": 10, "fast": 2, "echo": 55, "byz": 6, "bprop": 6, "bbundle": 10, "replay": 3, "crash": 0},
 	// one half never sees the soft / cert votes of a period, the rest does
-	"withhold": {"adv": 18, "drop": 3, "dup": 5, "timeout": 14, "fast": 2, "echo": 36, "byz": 10, "bprop": 5, "bbundle": 18, "replay": 7, "crash": 0, "cryptoLoss": 1},
+	"withhold": {"adv": 18, "drop": 3, "dup": 5, "timeout": 14, "fast": 2, "echo": 36, "byz": 10, "bprop": 5, "bbundle": 18, "replay": 7, "crash": 0},
 	// stale bundles replayed at random, many periods
-	"replay": {"adv": 24, "drop": 8, "dup": 14, "timeout": 24, "fast": 4, "echo": 10, "byz": 10, "bprop": 3, "bbundle": 20, "replay": 20, "crash": 0, "cryptoLoss": 2},
+	"replay": {"adv": 24, "drop": 8, "dup": 14, "timeout": 24, "fast": 4, "echo": 10, "byz": 10, "bprop": 3, "bbundle": 20, "replay": 20, "crash": 0},
 	// Byzantine weight just under the bound, equivocating everywhere
-	"equiv": {"adv": 25, "drop": 2, "dup": 5, "timeout": 8, "fast": 2, "echo": 30, "byz": 34, "bprop": 5, "bbundle": 14, "replay": 4, "crash": 0, "cryptoLoss": 1},
+	"equiv": {"adv": 25, "drop": 2, "dup": 5, "timeout": 8, "fast": 2, "echo": 30, "byz": 34, "bprop": 5, "bbundle": 14, "replay": 4, "crash": 0},
 	// crash-restore through the real encode/decode
-	"crash": {"adv": 14, "drop": 8, "dup": 8, "timeout": 16, "fast": 3, "echo": 14, "byz": 10, "bprop": 4, "bbundle": 8, "replay": 4, "crash": 25, "cryptoLoss": 2},
+	"crash": {"adv": 14, "drop": 8, "dup": 8, "timeout": 16, "fast": 3, "echo": 14, "byz": 10, "bprop": 4, "bbundle": 8, "replay": 4, "crash": 25},
+	// the cert (or soft) votes of a period reach ONE node only: it commits (or cert-votes) alone while the rest moves on
+	"lone": {"adv": 16, "drop": 2, "dup": 4, "timeout": 12, "fast": 2, "echo": 40, "byz": 8, "bprop": 4, "bbundle": 10, "replay": 4, "crash": 0},
 	// long stalls: many timeouts, fast recovery
-	"stall": {"adv": 30, "drop": 14, "dup": 5, "timeout": 45, "fast": 14, "echo": 5, "byz": 6, "bprop": 2, "bbundle": 6, "replay": 4, "crash": 0, "cryptoLoss": 3},
+	"stall": {"adv": 30, "drop": 14, "dup": 5, "timeout": 45, "fast": 14, "echo": 5, "byz": 6, "bprop": 2, "bbundle": 6, "replay": 4, "crash": 0},
 }
 
-var c01ModeNames = []string{"random", "split", "withhold", "replay", "equiv", "crash", "stall"}
+var c01ModeNames = []string{"random", "split", "withhold", "replay", "equiv", "crash", "stall", "lone"}
 
 // stakes: honest nodes share 1000 - byz per-mille
 func c01Stakes(rnd *vRand, n, nb int, byzTotal uint64) []uint64 {
@@ -1542,6 +1667,20 @@ func c01RandomCfg(rnd *vRand, k int, over bool) c01Cfg {
 		if rnd.Intn(3) == 0 {
 			cfg.withhold[0].until = -1
 		}
+	case "lone":
+		for i := range cfg.groups {
+			cfg.groups[i] = 0
+		}
+		cfg.groups[rnd.Intn(cfg.n)] = 1
+		until := 400 + rnd.Intn(900)
+		if rnd.Intn(3) == 0 {
+			until = -1
+		}
+		cl := []string{"cert", "cert", "soft"}[rnd.Intn(3)]
+		cfg.withhold = append(cfg.withhold, c01Rule{class: cl, group: 0, until: until})
+		if rnd.Intn(2) == 0 {
+			cfg.withhold = append(cfg.withhold, c01Rule{class: "bundle", group: 0, until: until})
+		}
 	case "crash":
 		cfg.crashes = 1 + rnd.Intn(3)
 	case "stall":
@@ -1592,9 +1731,9 @@ func TestVerifC01(t *testing.T) {
 	vStats(map[string]interface{}{
 		"runs": st.runs, "submitTop_calls": st.submits, "honest_votes": st.votes, "period_entries": st.enters, "ensure_actions": st.ensures,
 		"crash_restores": st.crashes, "go_panics": st.panics, "panic_classes": st.panicClasses, "synthetic_equivocator_votes": st.synth,
-		"byzantine_votes": st.byzVotes, "byzantine_bundles": st.byzBundles, "dropped": st.dropped, "duplicated": st.dups, "timeouts": st.timeouts,
+		"byzantine_votes": st.byzVotes, "byzantine_bundles": st.byzBundles, "payload_validations_cancelled_by_newer_proposal": st.cancelled, "dropped": st.dropped, "duplicated": st.dups, "timeouts": st.timeouts,
 		"fast_timeouts": st.fasts, "bundle_replays": st.replays, "rounds_with_commit": st.committedRuns, "max_period": st.maxPeriod,
-		"max_step": st.maxStep, "max_trace_events": st.traceMax, "period_entries_erased_by_crash": st.rollbackEnters, "modes": st.modes,
+		"max_step": st.maxStep, "period_entry_kinds": st.enterKinds, "honest_vote_kinds": st.voteKinds, "max_trace_events": st.traceMax, "period_entries_erased_by_crash": st.rollbackEnters, "modes": st.modes,
 		"forks_with_byzantine_stake_over_bound(expected, shows the scheduler can fork)": st.forksOver,
 		"forks_with_byzantine_stake_under_bound(must be 0)":                               st.forksUnder,
 	})
